@@ -126,6 +126,30 @@ def run(repo, rep, tier):
                 if not (ok_name and stored):
                     probs.append("the new archive file is not named after the id and stored under that name")
     rep.ob("C07.R1", co, "segment stored in a new archive file named after the id, or appended to the existing file", not probs, "; ".join(dict.fromkeys(probs)), key="C07.R1@create:store")
+    # which existing archive file receives the object: every file whose path *contains* the requested name qualifies
+    # (callers pass bare names such as "CalculationEngine" for Index/CalculationEngine-<n>.iwa); a narrower test makes
+    # the store create an unlisted top-level file instead
+    fname = co.args.args[1].arg
+    preds = []
+    for n in body_walk(co):
+        gens = []
+        if isinstance(n, (ast.ListComp, ast.GeneratorExp, ast.SetComp)):
+            gens = [(g.target, g.iter, g.ifs) for g in n.generators if "_file_store" in U(g.iter)]
+        elif isinstance(n, ast.For) and "_file_store" in U(n.iter):
+            ifs = [x.test for x in n.body if isinstance(x, ast.If)]
+            gens = [(n.target, n.iter, ifs)]
+        for tgt, it, ifs in gens:
+            kv = U(tgt.elts[0]) if isinstance(tgt, ast.Tuple) else U(tgt)
+            for t in ifs:
+                preds.append((U(t).replace(" ", ""), kv, t))
+    okp = False
+    shown = [p[0] for p in preds]
+    for t, kv, _node in preds:
+        if t in (f"{fname}in{kv}", f"{kv}.find({fname})>=0", f"{kv}.find({fname})!=-1", f"{kv}.count({fname})>0", f"{kv}.count({fname})", f"{kv}.__contains__({fname})"):
+            okp = True
+    rep.ob("C07.R1", preds[0][2] if preds else co, f"the receiving archive file is any stored file whose path contains `{fname}`", okp and len(preds) == 1,
+           "" if okp and len(preds) == 1 else f"lookup predicate {shown}: files such as Index/CalculationEngine-<n>.iwa are no longer found and a new archive file is created that no "
+           "metadata entry lists", key="C07.R1@create:lookup")
     seg = repo.func("iwafile.py", "create_iwa_segment")
     ok = "'identifier': str(obj_id)" in U(seg) and "NAME_ID_MAP[full_name]" in U(seg)
     rep.ob("C07.R1", seg, "segment header carries the object's id and registered type", ok, "", key="C07.R1@segment:header")
@@ -265,7 +289,7 @@ def run(repo, rep, tier):
                "; ".join(hm["problems"]), key=f"C07.R4@{axis}-headers")
     rep.ob("C07.R4", rtd, "objects are copied to the file store after the last tile", tm["copy_after_ok"], "", key="C07.R4@copy-after")
     rep.extra["template_sites"] = n_sites
-    rep.floor("C07.R1", 10)
+    rep.floor("C07.R1", 11)
     rep.floor("C07.R2", 8)
     rep.floor("C07.R3", 5)
     rep.floor("C07.R4", 12)
@@ -363,6 +387,8 @@ VARIANTS = [
         self.add_component_metadata(tile_id, "CalculationEngine", "Tables/Tile-{}")
 """, "C07.R2"),
     M("empty-rows-not-stored", "model.py", "                tile.rowInfos.append(row_info)\n", "                if row_info.cell_count:\n                    tile.rowInfos.append(row_info)\n", "C07.R4"),
+    M("lookup-narrowed", "containers.py", "paths = [k for k, v in self._file_store.items() if iwa_file in k]", "paths = [k for k in self._file_store if k.startswith(iwa_file) or k == f\"Index/{iwa_file}.iwa\"]", "C07.R1"),
+    T("lookup-keys-only", "containers.py", "paths = [k for k, v in self._file_store.items() if iwa_file in k]", "paths = [name for name in self._file_store if iwa_file in name]"),
     M("drop-style-table-metadata", "model.py", "        self.add_component_metadata(style_table_id, \"CalculationEngine\", \"Tables/DataList-{}\")\n", "", "C07.R2"),
     M("tile-metadata-wrong-locator", "model.py", 'self.add_component_metadata(tile_id, "CalculationEngine", "Tables/Tile-{}")', 'self.add_component_metadata(tile_id, "CalculationEngine", "Tables/DataList-{}")', "C07.R2"),
     M("id-not-recorded", "containers.py", "        self._objects[PACKAGE_ID].last_object_identifier = self._max_id\n", "", "C07.R1"),
